@@ -7,7 +7,7 @@ EXPLANATION = (
     "the drained state is the removed table entry, only push (add-listener) and pop (drain) mutate the listener list; (U2) every lifecycle path "
     "answers exactly once and one lifecycle exists per entry (C06-P2, C05-A3); (U3) all policy rejections (conflicting info, relative expiry, "
     "declared total) request failure before the HTLC is added, with the stated guards and responses, and the fail flag permanently disables "
-    "readiness; (U4) the fail arm forwards the requested response and cannot reach pay."
+    "readiness; (U5) a failure answered directly to one HTLC (classification / handler before the table entry) never depends on that HTLC's own amount, expiry or declared total - such rejections must go through the set; (U4) the fail arm forwards the requested response and cannot reach pay."
 )
 ASSUMPTIONS = ["which of two simultaneously ready select arms tokio picks is outside the statement"]
 
@@ -21,4 +21,5 @@ def run(F, X, rep):
     R.a3_one_lifecycle_per_entry(C, rep, "C07-U2")
     H.u3_reject_before_add(C, rep, "C07-U3")
     H.p4b_answer_only_via_lifecycle(C, rep, "C07-U3")
+    H.u5_no_individual_rejection(C, rep, "C07-U5")
     R.u4_fail_arm_forwards(C, rep, "C07-U4")
